@@ -368,6 +368,16 @@ func init() {
 		}
 	}
 
+	// ---- platform: CPU feature detection reports every feature
+	intrinsics["github.com/tetratelabs/wazero/internal/platform.cpuid"] = func(ex *Exec, st *State, f *Frame, fn FuncV, args []Value, retTo ssa.Value, instr ssa.Instruction) bool {
+		all := ex.tb.Const(0xffffffff, 32)
+		return ret(f, retTo, TupleV{all, all, all, all})
+	}
+	intrinsics["reflect.TypeOf"] = func(ex *Exec, st *State, f *Frame, fn FuncV, args []Value, retTo ssa.Value, instr ssa.Instruction) bool {
+		return ret(f, retTo, Opaque{Why: "reflect.TypeOf"})
+	}
+	intrinsics["internal/reflectlite.TypeOf"] = intrinsics["reflect.TypeOf"]
+
 	// ---- fmt / errors
 	intrinsics["fmt.Errorf"] = intrErrorf
 	intrinsics["fmt.Sprintf"] = intrSprintf
